@@ -61,8 +61,10 @@ def configs(ctx):
     quick = ctx.quick
     tags = ["P1", "P1ij", "P2", "P3", "P7", "S1", "S2", "T2b", "P9"]
     tmpl = dict(U.templates("thorough"))
-    max_cells = ctx.pick(10, 12)
+    max_cells = ctx.pick(10, 11)
     for tag in tags:
+        # (P1ij is P1 with ranks named I, J: it is there for the naming rules and keeps the quick parameters in both tiers)
+        quick = ctx.quick or tag == "P1ij"
         expr = tmpl[tag]
         decl = U.decl_for([expr])
         ranks = U.expr_ranks(expr)
@@ -84,7 +86,7 @@ def configs(ctx):
                 part = dict(zip(sub, stacks))
                 groups = loop_ranks(ranks, part)
                 nloop = sum(len(g) for g in groups)
-                los = orders(groups, ctx.pick(4, 5))
+                los = orders(groups, 4 if quick else 5)
                 if quick:
                     cap = 24 if (tag == "P1" and len(sub) == 1) else 8
                     if len(los) > cap:
@@ -94,7 +96,7 @@ def configs(ctx):
                 while not exts:
                     exts = U.pareto_extents(sorted(set(r for rs in decl.values() for r in rs)),
                                             lambda e: X.n_cells(spec0, e) if all(e[r] >= 2 for r in sub) else 10 ** 9,
-                                            ctx.pick((1, 2, 3), (1, 2, 3, 4, 5)), mc_)
+                                            (1, 2, 3) if quick else (1, 2, 3, 4, 5), mc_)
                     mc_ += 1
                 # extent vectors must give the partitioned ranks room: keep those maximal in the partitioned ranks
                 best = max(sum(e[r] for r in sub) for e in exts)
@@ -109,6 +111,7 @@ def configs(ctx):
                         if sz is not None:
                             cfg["sizes"] = {"SZ": sz}
                         work.append(cfg)
+    quick = ctx.quick
     # affine Einsums whose *non-output* index ranks are shape-partitioned (no follower, hence no halos)
     from mc.spec.build import E, T, times
     d1 = {"I": ["W"], "F": ["S"], "O": ["Q"]}
